@@ -179,6 +179,11 @@ func newCluster(w *world) (*cluster, error) {
 				}
 			}
 		}
+		for i := range w.RuleSet {
+			if w.RuleSet[i].ID == "default" {
+				kept = 0 // the description lists the default rule itself: it stays
+			}
+		}
 		if kept > 0 {
 			if err := mc.RuleManager.DeleteRule("pd", "default"); err != nil {
 				// pd refuses a rule set without a leader / voter rule: the default rule stays next to the custom ones
